@@ -21,6 +21,12 @@ ASSUMPTIONS = ["scipy.fftpack dst/idst are used through the contract of the unno
 def make(kind):
     if kind == 'Continuous1D': return Continuous1D(4)
     if kind == 'Continuous2D': return Continuous2D((2, 3))
+    if kind.startswith('Continuous2D:'):                                # grids with a one-node axis
+        a, b = kind.split(':')[1].split('x'); return Continuous2D((int(a), int(b)))
+    if kind.startswith('Image2D:C:'):
+        a, b = kind.split(':')[2].split('x'); return Image2D((int(a), int(b)), order='C')
+    if kind == 'Continuous1D:1': return Continuous1D(1)
+    if kind == 'Discrete:1': return Discrete(['a'])
     if kind == 'Image2D:C': return Image2D((2, 3), order='C')
     if kind == 'Image2D:F': return Image2D((2, 3), order='F')
     if kind == 'Image2D:visual_only': return Image2D((2, 3), visual_only=True)
@@ -232,6 +238,11 @@ def jobs(tier):
             J.append(Job(f'{kind}:roundtrip_and_columnwise:batch={k}', lambda c, kind=kind, k=k: roundtrip(c, kind, k), 'Pbox', fl, maxpaths=4096))
         J.append(Job(f'{kind}:Samples_conversions', lambda c, kind=kind: samples_conversions(c, kind), 'Pbox', fl + ['cuqi.samples._samples:Samples.funvals', 'cuqi.samples._samples:Samples.parameters', 'cuqi.samples._samples:Samples.vector'], maxpaths=4096))
         J.append(Job(f'{kind}:CUQIarray_conversions', lambda c, kind=kind: cuqiarray_conversions(c, kind), 'Pbox', fl + ['cuqi.array._array:CUQIarray.funvals', 'cuqi.array._array:CUQIarray.parameters']))
+    # singleton axes: one parameter (one step / one mode / one node), grids with a one-node axis - shapes reported must still be the shapes produced
+    for kind in ('Step:mean:4:1', 'KL:5:1', 'Continuous2D:1x3', 'Continuous2D:3x1', 'Image2D:C:1x3', 'Continuous1D:1', 'Discrete:1'):
+        fl = fn[kind.split(':')[0]]
+        for k in (0, 2):
+            J.append(Job(f'{kind}:singleton_axis:roundtrip_and_columnwise:batch={k}', lambda c, kind=kind, k=k: roundtrip(c, kind, k), 'Pbox', fl, rtol=1e-6, atol=1e-9, maxpaths=4096))
     for kind in ('Step:mean:5:2', 'Step:max:6:3', 'Step:min:4:4'):
         for k in (0, 2):
             J.append(Job(f'{kind}:projection_idempotent:batch={k}', lambda c, kind=kind, k=k: projection_idempotent(c, kind, k), 'Pbox', fn['Step'], maxpaths=4096))
